@@ -89,6 +89,7 @@ def x12n_document(param, src_file, fd_997, fd_html,
         html = pyx12.error_html.error_html(errh, fd_html, src.get_term())
         html.header()
         err_iter = pyx12.error_handler.err_iter(errh)
+        html_seg_nodes_shown = set()
     if fd_xmldoc:
         xmldoc = pyx12.x12xml_simple.x12xml_simple(fd_xmldoc, param.get('simple_dtd'))
 
@@ -101,6 +102,7 @@ def x12n_document(param, src_file, fd_997, fd_html,
         orig_node = node
         # interchange level errors already known: what is added while this
         # segment is handled is shown next to it in the HTML report
+        seg_nodes_before = len(errh.attached_seg_nodes)
         isa_node_before = errh.cur_isa_node
         isa_err_ct_before = len(isa_node_before.errors) if isa_node_before is not None else 0
 
@@ -135,6 +137,12 @@ def x12n_document(param, src_file, fd_997, fd_html,
         if False:
             print('------- counters after --------')
             print((walker.counter._dict))
+        for (trailer_id, loop_node) in (('SE', errh.cur_st_node), ('GE', errh.cur_gs_node), ('IEA', errh.cur_isa_node)):
+            if node is not None and seg.get_seg_id() == trailer_id \
+                    and (loop_node is None or loop_node.is_closed()):
+                # A trailer without an open loop closes nothing and is no
+                # part of the loop closed before it
+                node = None
         if node is None:
             node = orig_node
             if seg.get_seg_id() == 'ST' and errh.cur_gs_node is not None \
@@ -246,6 +254,14 @@ def x12n_document(param, src_file, fd_997, fd_html,
                     err_node_list.append(err_node)
                 except pyx12.errors.IterOutOfBounds:
                     break
+            # Segment nodes attached while this segment was handled, wherever the
+            # iterator stands (a set that was never closed is not visited again)
+            for seg_node in errh.attached_seg_nodes[seg_nodes_before:]:
+                if seg_node not in err_node_list:
+                    err_node_list.append(seg_node)
+            # ... and each of them is shown once
+            err_node_list = [x for x in err_node_list if x.id != 'SEG' or id(x) not in html_seg_nodes_shown]
+            html_seg_nodes_shown.update([id(x) for x in err_node_list if x.id == 'SEG'])
             # A set (group, interchange) without errors below it is never revisited
             # by the iterator: the errors of its trailer would not be shown
             for (trailer_id, loop_node) in (('SE', errh.cur_st_node), ('GE', errh.cur_gs_node), ('IEA', errh.cur_isa_node)):
